@@ -516,9 +516,9 @@ func (h *c19InstH) Key() (uint64, bool) { return 0, false }
 func c19Explore(c *core.Ctx, cfg c19Cfg, race bool, only []int, onFail func(cs c19Case, fs []F)) (e *schedx.Explorer, rep map[string]any) {
 	old := runtime.GOMAXPROCS(1)
 	defer runtime.GOMAXPROCS(old)
-	va.Hook = func(op string) { schedx.Point(op) } // atomic operations of the library are scheduling points
-	vs.Global = poolctl.Sched{}                    // pools (the recycled shared buffer) are deterministic
-	defer func() { va.Hook = nil; vs.Global = nil }()
+	va.SetHook(func(op string) { schedx.Point(op) }) // atomic operations of the library are scheduling points
+	vs.SetGlobal(poolctl.Sched{})                    // pools (the recycled shared buffer) are deterministic
+	defer func() { va.SetHook(nil); vs.SetGlobal(nil) }()
 	start := time.Now()
 	baseGoroutines := runtime.NumGoroutine()
 	var h schedx.Harness = &c19H{cfg: cfg, t: typeByName(cfg.T)}
